@@ -18,99 +18,120 @@ Proof.
   destruct (subtree_at p doc) as [[n i pl kids|refs key sv]|]; reflexivity.
 Qed.
 
-Lemma md_verdict_true dupfail doc nm cert :
-  md_verdict dupfail doc nm cert = Ok true ->
+Lemma In_seq_lt k n : (k < n)%nat -> In k (seq 0 n).
+Proof. intros H. apply in_seq. split; [apply Nat.le_0_l|exact H]. Qed.
+
+(* ---- registered IDs are IDs: registered nm t here is a sub-list of all_ids t here ---- *)
+Lemma registered_sub nm : forall t here x, In x (registered nm t here) -> In x (all_ids t here).
+Proof.
+  fix IH 1. intros [n i pl kids|refs key sv] here x; cbn [registered all_ids]; [|intros []].
+  rewrite !in_app_iff. intros [H|H].
+  - left. destruct i as [v|]; [|exact H]. destruct (N.eqb n nm); [exact H|destruct H].
+  - right. revert H. generalize 0%nat.
+    induction kids as [|c r IHk]; intros k H; [exact H|].
+    rewrite in_app_iff in H. rewrite in_app_iff. destruct H as [H|H].
+    + left. exact (IH c _ _ H).
+    + right. exact (IHk _ H).
+Qed.
+
+Lemma lookup_id_In v regs p : lookup_id v regs = Some p -> In (v, p) regs.
+Proof.
+  induction regs as [|[v' p'] r IH]; cbn [lookup_id]; [discriminate|].
+  destruct (str_eqb_spec v' v) as [->|_].
+  - intros H; injection H as <-. now left.
+  - intros H. right. exact (IH H).
+Qed.
+
+(* the root carries v and nobody else does: a registered element with ID v is the root *)
+Lemma unique_root_id nm n v pl kids p :
+  Nat.eqb (List.length (with_id v (all_ids (El n (Some v) pl kids) []))) 1 = true ->
+  lookup_id v (registered nm (El n (Some v) pl kids) []) = Some p -> p = [].
+Proof.
+  intros Hu Hl. apply lookup_id_In in Hl. apply registered_sub in Hl.
+  assert (Hin : In (v, p) (with_id v (all_ids (El n (Some v) pl kids) []))).
+  { unfold with_id. apply filter_In. split; [exact Hl|]. cbn [fst]. apply str_eqb_refl. }
+  revert Hu Hin. cbn [all_ids app]. unfold with_id. cbn [filter fst]. rewrite str_eqb_refl.
+  cbn [List.length]. intros Hu Hin. apply Nat.eqb_eq in Hu. injection Hu as Hu.
+  apply length_zero_iff_nil in Hu. rewrite Hu in Hin. destruct Hin as [Hin|[]]. now injection Hin.
+Qed.
+
+(* ---- the repaired loader: pre-check, then the tool ---- *)
+Lemma md_verdict_prechecked_true dupfail doc nm cert :
+  md_verdict_prechecked dupfail doc nm cert = Ok true ->
+  md_precheck doc = true /\
   exists p, first_sig doc = Some p /\ sig_verifies doc nm p cert = true.
 Proof.
-  unfold md_verdict. destruct (tool_verify dupfail doc nm None cert) eqn:E; [|discriminate].
-  intros _. rewrite tool_verify_no_node_id in E.
+  unfold md_verdict_prechecked. destruct (md_precheck doc); [|discriminate].
+  destruct (tool_verify dupfail doc nm None cert) eqn:E; [|discriminate].
+  intros _. split; [reflexivity|]. rewrite tool_verify_no_node_id in E.
   destruct (dupfail && has_dup (registered nm doc [])); [discriminate|].
   destruct (first_sig doc) as [p|]; [|discriminate]. now exists p.
 Qed.
 
-(* a registered source with certificate and signed root: the tool said OK about
-   the first signature in document order *)
-Lemma signed_source_registered dupfail now s doc nm cert m :
+(* what md_precheck says *)
+Lemma md_precheck_shape doc :
+  md_precheck doc = true ->
+  exists n i pl kids k u d key sv,
+    doc = El n i pl kids /\ first_sig doc = Some [k] /\ count_sigs kids = 1%nat /\
+    nth_error kids k = Some (Sg [(u, d)] key sv) /\
+    (u = [] \/ exists v, i = Some v /\ v <> [] /\ u = HASH :: v /\
+                        Nat.eqb (List.length (with_id v (all_ids doc []))) 1 = true).
+Proof.
+  unfold md_precheck. destruct doc as [n i pl kids|refs key sv]; [|discriminate].
+  destruct (first_sig (El n i pl kids)) as [[|k [|k' p']]|] eqn:Ef; try discriminate.
+  intros H. apply andb_true_iff in H as [Hc H]. apply Nat.eqb_eq in Hc.
+  destruct (nth_error kids k) as [[n' i' pl' kids'|[|[u d] [|r2 refs]] key sv]|] eqn:En; try discriminate.
+  exists n, i, pl, kids, k, u, d, key, sv. repeat split; auto.
+  destruct u as [|c u']; [now left|]. right.
+  destruct i as [v|]; [|discriminate]. apply andb_true_iff in H as [H Hu]. apply andb_true_iff in H as [Hv He].
+  apply str_eqb_eq in He. exists v. repeat split; auto. intros ->. discriminate.
+Qed.
+
+(* FULL: a registered source with certificate and signed root - the root's own
+   signature child was verified under the certificate and digests the whole
+   document minus that signature *)
+Lemma prechecked_loader_full dupfail now s doc nm cert m :
   s_kind s <> Inline -> s_cert s = true -> root_signed doc = true ->
-  load_source now (signed_source s dupfail doc nm cert) = Ok m ->
-  exists p, first_sig doc = Some p /\ sig_verifies doc nm p cert = true.
+  load_source now (signed_source_prechecked s dupfail doc nm cert) = Ok m ->
+  own_signature_ok doc nm cert = true /\
+  exists n i pl kids k u d,
+    doc = El n i pl kids /\ first_sig doc = Some [k] /\ count_sigs kids = 1%nat /\
+    nth_error kids k = Some (Sg [(u, d)] cert true) /\
+    (u = [] \/ exists v, i = Some v /\ v <> [] /\ u = HASH :: v) /\
+    tree_eqb d (remove_at [k] doc) = true.
 Proof.
   intros Hk Hc Hs Hl. apply load_source_ok in Hl as [_ [_ Ha]].
-  cbn [signed_source s_kind s_cert s_doc d_signed s_verdict] in Ha.
-  destruct (Ha Hk Hc Hs) as [_ Hv]. exact (md_verdict_true _ _ _ _ Hv).
-Qed.
-
-Lemma In_seq_lt k n : (k < n)%nat -> In k (seq 0 n).
-Proof. intros H. apply in_seq. split; [apply Nat.le_0_l|exact H]. Qed.
-
-(* when the first signature in document order is the root's own and refers to
-   the root, a registered source's own signature verifies *)
-Lemma own_signature_partial dupfail now s doc nm cert m :
-  s_kind s <> Inline -> s_cert s = true -> root_signed doc = true ->
-  first_sig_is_own doc nm = true ->
-  load_source now (signed_source s dupfail doc nm cert) = Ok m ->
-  own_signature_ok doc nm cert = true.
-Proof.
-  intros Hk Hc Hs Hown Hl.
-  destruct (signed_source_registered _ _ _ _ _ _ _ Hk Hc Hs Hl) as (p & Hp & Hv).
-  unfold first_sig_is_own in Hown. destruct doc as [n i pl kids|refs key sv]; [|discriminate].
-  rewrite Hp in Hown. destruct p as [|k [|k' p']]; try discriminate.
-  destruct (nth_error kids k) as [[n' i' pl' kids'|refs key sv]|] eqn:En; try discriminate.
-  unfold own_signature_ok. apply existsb_exists. exists k. split.
-  - apply In_seq_lt. apply nth_error_Some. now rewrite En.
-  - unfold own_sig_ok_at. rewrite En, Hv, Hown. reflexivity.
-Qed.
-
-(* the enveloped-signature pre-check of sigver.py (Model/Xmlsec.v precheck),
-   asked about the root element and its own ID, implies that shape *)
-Lemma with_id_head v p rest x px :
-  with_id v ((v, p) :: rest) = [(x, px)] -> px = p.
-Proof.
-  unfold with_id. cbn [filter fst]. rewrite (proj2 (str_eqb_eq v v) eq_refl).
-  intros H. now injection H.
-Qed.
-
-Lemma lookup_id_head v p rest : lookup_id v ((v, p) :: rest) = Some p.
-Proof. cbn [lookup_id]. now rewrite (proj2 (str_eqb_eq v v) eq_refl). Qed.
-
-Lemma precheck_root_first_sig_is_own nm v pl kids :
-  precheck (El nm (Some v) pl kids) nm (Some v) = true ->
-  first_sig_is_own (El nm (Some v) pl kids) nm = true.
-Proof.
-  set (doc := El nm (Some v) pl kids).
-  assert (Hregs : exists rest, registered nm doc [] = (v, []) :: rest).
-  { unfold doc. cbn [registered]. rewrite N.eqb_refl. cbn [app]. eexists. reflexivity. }
-  destruct Hregs as [rest Hregs].
-  unfold precheck, first_sig_is_own. rewrite Hregs. fold doc.
-  destruct v as [|c v']; [discriminate|]. remember (c :: v') as v eqn:Ev.
-  rewrite Ev at 1. rewrite <- Ev.
-  match goal with |- match ?X with _ => _ end = true -> _ => destruct X as [|[x px] [|y l]] eqn:Ew end;
-    [discriminate| |discriminate].
-  apply with_id_head in Ew. subst px. cbn [subtree_at]. unfold doc at 1 2.
-  fold doc. destruct (first_sig doc) as [[|k [|k' p']]|]; try discriminate.
-  intros H. apply andb_true_iff in H as [_ H].
-  destruct (nth_error kids k) as [[n' i' pl' kids'|[|[u d] [|r2 refs]] key sv]|]; try discriminate.
-  apply str_eqb_eq in H. subst u. unfold covers_root. cbn [existsb fst resolve].
-  unfold HASH. rewrite N.eqb_refl. rewrite lookup_id_head. reflexivity.
-Qed.
-
-(* the loader WITH the pre-check (follow-up proposed_fix/C16-2-after-C01-1): full statement,
-   for a root element of the registered name *)
-Lemma prechecked_loader_full dupfail now s nm i pl kids cert m :
-  s_kind s <> Inline -> s_cert s = true -> root_signed (El nm i pl kids) = true ->
-  load_source now (signed_source_prechecked s dupfail (El nm i pl kids) nm cert) = Ok m ->
-  own_signature_ok (El nm i pl kids) nm cert = true.
-Proof.
-  intros Hk Hc Hs Hl. pose proof Hl as Hl0. apply load_source_ok in Hl as [Hp [Hh Ha]].
   cbn [signed_source_prechecked s_kind s_cert s_doc d_signed s_verdict] in Ha.
-  destruct (Ha Hk Hc Hs) as [_ Hv]. unfold md_verdict_prechecked in Hv. cbn [root_id] in Hv.
-  destruct (precheck (El nm i pl kids) nm i) eqn:Epre; [|discriminate].
-  destruct i as [v|]; [|discriminate Epre].
-  apply (own_signature_partial dupfail now s (El nm (Some v) pl kids) nm cert m Hk Hc Hs
-           (precheck_root_first_sig_is_own _ _ _ _ Epre)).
-  (* the un-prechecked source with the same verdict is registered as well *)
-  apply load_source_complete.
-  - split; [exact Hh|]. intros _ _ _. cbn [signed_source s_kind s_verdict].
-    destruct (Ha Hk Hc Hs) as [Hr _]. split; [exact Hr|exact Hv].
-  - exact Hp.
+  destruct (Ha Hk Hc Hs) as [_ Hv]. apply md_verdict_prechecked_true in Hv as [Hpre (p & Hp & Hsv)].
+  destruct (md_precheck_shape _ Hpre) as (n & i & pl & kids & k & u & d & key & sv & -> & Hf & Hcnt & Hn & Hu).
+  rewrite Hf in Hp. injection Hp as <-.
+  (* unfold the verification of the signature at [k] *)
+  pose proof Hsv as Hsv0. unfold sig_verifies in Hsv. cbn [subtree_at] in Hsv. rewrite Hn in Hsv.
+  apply andb_true_iff in Hsv as [Hsv Hrefs]. apply andb_true_iff in Hsv as [Hsv _].
+  apply andb_true_iff in Hsv as [Hsvok Hkey]. apply N.eqb_eq in Hkey. subst key. subst sv.
+  cbn [forallb] in Hrefs. rewrite andb_true_r in Hrefs.
+  (* the single Reference resolves to the root *)
+  assert (Hres : resolve u (registered nm (El n i pl kids) []) = Some []).
+  { destruct Hu as [->|(v & -> & Hv & -> & Hun)]; [reflexivity|].
+    unfold ref_ok in Hrefs. cbn [fst] in Hrefs.
+    destruct (resolve (HASH :: v) (registered nm (El n (Some v) pl kids) [])) as [pt|] eqn:Er; [|discriminate].
+    f_equal. revert Er. cbn [resolve]. unfold HASH. rewrite N.eqb_refl. intros Er.
+    exact (unique_root_id _ _ _ _ _ _ Hun Er). }
+  split.
+  - unfold own_signature_ok. apply existsb_exists. exists k. split.
+    + apply In_seq_lt. apply nth_error_Some. now rewrite Hn.
+    + unfold own_sig_ok_at. rewrite Hn, Hsv0. unfold covers_root. cbn [existsb fst]. now rewrite Hres.
+  - exists n, i, pl, kids, k, u, d. repeat split; auto.
+    + destruct Hu as [->|(v & Hi & Hv & Hu & _)]; [now left|right; now exists v].
+    + unfold ref_ok in Hrefs. cbn [fst snd] in Hrefs. rewrite Hres in Hrefs.
+      cbn [subtree_at is_prefix List.length skipn] in Hrefs. exact Hrefs.
+Qed.
+
+(* a document the pre-check refuses is never registered (certificate + signed root) *)
+Lemma precheck_refused_not_registered dupfail now s doc nm cert :
+  s_kind s <> Inline -> s_cert s = true -> root_signed doc = true -> md_precheck doc = false ->
+  exists x, load_source now (signed_source_prechecked s dupfail doc nm cert) = Err x.
+Proof.
+  intros Hk Hc Hs Hp. apply failed_verification_fatal; auto.
+  cbn [signed_source_prechecked s_verdict]. unfold md_verdict_prechecked. rewrite Hp. discriminate.
 Qed.
